@@ -26,7 +26,7 @@ meta = {
         "how": "tools/confirm_seed.py on a fresh scratch worktree of /repo (" + str(conf.get("demo_cmd")) + ")",
         "check_result": result,
     },
-    "produced_by": "fresh sub-agent given the property text and a scratch worktree (batch 6)",
+    "produced_by": "fresh sub-agent given the property text and a scratch worktree (batch 7)",
 }
 json.dump(meta, open(os.path.join(dst, "meta.json"), "w"), indent=1)
 print("stored", dst, os.listdir(dst))
